@@ -1,0 +1,324 @@
+//go:build verif
+
+// Verification-only accessors. Nothing in this file is compiled unless the
+// "verif" build tag is set; it only adds read-only walkers and node-level
+// entry points on top of the unmodified library code.
+
+package art
+
+import (
+	"unsafe"
+)
+
+// VerifNode is one node of a structural dump of a tree.
+type VerifNode struct {
+	Kind  string       // "leaf", "n4", "n16", "n48", "n256"
+	N     int          // recorded fan-out (childrenLen)
+	Real  int          // independently counted children (n48: non-zero index entries, n256: non-nil children; n4/n16: = N)
+	PLen  int          // recorded compressed-path length (may exceed the inline limit)
+	Pfx   []byte       // raw inline compressed-path bytes (all maxPrefixLen of them)
+	Lanes []byte       // raw key lanes (n4: 4, n16: 16, incl. unoccupied ones); n48: slot numbers of the occupied index entries
+	Bytes []byte       // branch bytes in enumeration order
+	Ch    []*VerifNode // children in enumeration order
+	Key   []byte       // leaf: original key bytes
+	TKey  []byte       // leaf: transformed key bytes
+	Val   any          // leaf: value
+}
+
+func verifWalk[V any, L nodeLeaf[V]](ref nodeRef, val func(unsafe.Pointer) any) *VerifNode {
+	if ref.pointer == nil {
+		return nil
+	}
+
+	if ref.tag == nodeKindLeaf {
+		leaf := (L)(ref.pointer)
+		return &VerifNode{
+			Kind: "leaf",
+			Key:  append([]byte{}, leaf.getKey()...),
+			TKey: append([]byte{}, leaf.getTransformKey()...),
+			Val:  val(ref.pointer),
+		}
+	}
+
+	hdr := ref.node()
+	out := &VerifNode{
+		N:    int(hdr.childrenLen),
+		PLen: int(hdr.prefixLen),
+		Pfx:  append([]byte{}, hdr.prefix[:]...),
+	}
+
+	add := func(b byte, child nodeRef) {
+		out.Bytes = append(out.Bytes, b)
+		out.Ch = append(out.Ch, verifWalk[V, L](child, val))
+	}
+
+	switch ref.tag {
+	case nodeKind4:
+		n4 := (*node4)(ref.pointer)
+		out.Kind = "n4"
+		out.Lanes = deconstruct(n4.keys)
+		out.Real = out.N
+		for i := 0; i < int(n4.childrenLen) && i < int(maxNode4); i++ {
+			add(out.Lanes[i], n4.children[i])
+		}
+
+	case nodeKind16:
+		n16 := (*node16)(ref.pointer)
+		out.Kind = "n16"
+		out.Lanes = append([]byte{}, n16.keys[:]...)
+		out.Real = out.N
+		for i := 0; i < int(n16.childrenLen) && i < int(maxNode16); i++ {
+			add(n16.keys[i], n16.children[i])
+		}
+
+	case nodeKind48:
+		n48 := (*node48)(ref.pointer)
+		out.Kind = "n48"
+		for i := 0; i < 256; i++ {
+			if idx := n48.keys[i]; idx != 0 {
+				out.Real++
+				out.Lanes = append(out.Lanes, idx)
+				if int(idx) <= int(maxNode48) {
+					add(byte(i), n48.children[idx-1])
+				} else {
+					add(byte(i), nodeRef{})
+				}
+			}
+		}
+
+	case nodeKind256:
+		n256 := (*node256)(ref.pointer)
+		out.Kind = "n256"
+		for i := 0; i < 256; i++ {
+			if n256.children[i].pointer != nil {
+				out.Real++
+				add(byte(i), n256.children[i])
+			}
+		}
+
+	default:
+		out.Kind = "bad"
+	}
+
+	return out
+}
+
+func (t *alphaSortedTree[K, V]) VerifDump() (*VerifNode, int) {
+	return verifWalk[V, *alphaLeafNode[V]](t.root, func(p unsafe.Pointer) any { return (*alphaLeafNode[V])(p).value }), t.size
+}
+
+func (t *unsignedSortedTree[K, V]) VerifDump() (*VerifNode, int) {
+	return verifWalk[V, *unsignedLeafNode[V]](t.root, func(p unsafe.Pointer) any { return (*unsignedLeafNode[V])(p).value }), t.size
+}
+
+func (t *signedSortedTree[K, V]) VerifDump() (*VerifNode, int) {
+	return verifWalk[V, *signedLeafNode[V]](t.root, func(p unsafe.Pointer) any { return (*signedLeafNode[V])(p).value }), t.size
+}
+
+func (t *floatSortedTree[K, V]) VerifDump() (*VerifNode, int) {
+	return verifWalk[V, *floatLeafNode[V]](t.root, func(p unsafe.Pointer) any { return (*floatLeafNode[V])(p).value }), t.size
+}
+
+func (t *compoundSortedTree[K, V]) VerifDump() (*VerifNode, int) {
+	return verifWalk[V, *compoundLeafNode[V]](t.root, func(p unsafe.Pointer) any { return (*compoundLeafNode[V])(p).value }), t.size
+}
+
+func (t *collationSortedTree[K, V]) VerifDump() (*VerifNode, int) {
+	return verifWalk[V, *collateLeafNode[V]](t.root, func(p unsafe.Pointer) any { return (*collateLeafNode[V])(p).value }), t.size
+}
+
+// ---- in-node primitives ----------------------------------------------------
+
+func VerifSearchNode4(keys uint32, b byte) int    { return searchNode4(keys, b) }
+func VerifInsertPosNode4(keys uint32, b byte) int { return insertPosNode4(keys, b) }
+func VerifSearchNode16(keys *[16]byte, n uint8, b byte) int {
+	return searchNode16(keys, n, b)
+}
+func VerifInsertPosNode16(keys *[16]byte, n uint8, b byte) int {
+	return insertPosNode16(keys, n, b)
+}
+
+var verifDummy [16]alphaLeafNode[int]
+
+// VerifProbe4 crafts a 4-slot node with the given raw lanes and fill count and
+// looks every byte value up through the library's own findChild. The result is
+// the slot found, or -1.
+func VerifProbe4(keys uint32, n uint8) (res [256]int8) {
+	n4 := &node4{keys: keys}
+	n4.childrenLen = n
+	for i := range n4.children {
+		n4.children[i] = nodeRef{pointer: unsafe.Pointer(&verifDummy[i]), tag: nodeKindLeaf}
+	}
+	ref := nodeRef{pointer: unsafe.Pointer(n4), tag: nodeKind4}
+	for b := 0; b < 256; b++ {
+		res[b] = -1
+		if c := ref.findChild(byte(b)); c != nil {
+			res[b] = -2
+			for i := range n4.children {
+				if c == &n4.children[i] {
+					res[b] = int8(i)
+				}
+			}
+		}
+	}
+	return res
+}
+
+// VerifProbe16 is VerifProbe4 for the 16-slot class.
+func VerifProbe16(keys [16]byte, n uint8) (res [256]int8) {
+	n16 := &node16{keys: keys}
+	n16.childrenLen = n
+	for i := range n16.children {
+		n16.children[i] = nodeRef{pointer: unsafe.Pointer(&verifDummy[i]), tag: nodeKindLeaf}
+	}
+	ref := nodeRef{pointer: unsafe.Pointer(n16), tag: nodeKind16}
+	for b := 0; b < 256; b++ {
+		res[b] = -1
+		if c := ref.findChild(byte(b)); c != nil {
+			res[b] = -2
+			for i := range n16.children {
+				if c == &n16.children[i] {
+					res[b] = int8(i)
+				}
+			}
+		}
+	}
+	return res
+}
+
+// VerifHandle is a bare inner node driven through the library's own
+// addChild / deleteChild / findChild and enumerated through its own iterators.
+// Children are leaves whose value is the id given to Add.
+type VerifHandle struct {
+	ref nodeRef
+}
+
+func NewVerifHandle() *VerifHandle {
+	n4 := nodePools[nodeKind4].Get().(*node4)
+	return &VerifHandle{ref: nodeRef{pointer: unsafe.Pointer(n4), tag: nodeKind4}}
+}
+
+// Kind reports the current size class ("leaf" once the node has collapsed into
+// its last child).
+func (h *VerifHandle) Kind() string {
+	switch h.ref.tag {
+	case nodeKind4:
+		return "n4"
+	case nodeKind16:
+		return "n16"
+	case nodeKind48:
+		return "n48"
+	case nodeKind256:
+		return "n256"
+	case nodeKindLeaf:
+		return "leaf"
+	}
+	return "bad"
+}
+
+func (h *VerifHandle) Add(b byte, id int) {
+	k := []byte{b}
+	leaf := &alphaLeafNode[int]{key: unsafe.SliceData(k), len: 1, value: id}
+	h.ref.addChild(b, nodeRef{pointer: unsafe.Pointer(leaf), tag: nodeKindLeaf})
+}
+
+// Remove must only be called for a byte that is registered (as the trees do).
+func (h *VerifHandle) Remove(b byte) { h.ref.deleteChild(b) }
+
+// Find returns the id registered under b, or -1.
+func (h *VerifHandle) Find(b byte) int {
+	if h.ref.tag == nodeKindLeaf {
+		return -1
+	}
+	c := h.ref.findChild(b)
+	if c == nil {
+		return -1
+	}
+	if c.tag != nodeKindLeaf || c.pointer == nil {
+		return -2
+	}
+	return (*alphaLeafNode[int])(c.pointer).value
+}
+
+func (h *VerifHandle) restore(p unsafe.Pointer) ([]byte, int) {
+	l := (*alphaLeafNode[int])(p)
+	return l.getKey(), l.value
+}
+
+// Enumerate lists (byte, id) of the children in the order of the library's
+// forward iterator; EnumerateBackward in the order of its backward iterator.
+func (h *VerifHandle) Enumerate() (bs []byte, ids []int) {
+	for k, v := range all(h.ref, h.restore) {
+		bs = append(bs, k[0])
+		ids = append(ids, v)
+	}
+	return
+}
+
+func (h *VerifHandle) EnumerateBackward() (bs []byte, ids []int) {
+	for k, v := range backward(h.ref, h.restore) {
+		bs = append(bs, k[0])
+		ids = append(ids, v)
+	}
+	return
+}
+
+// MinMax returns the ids of the leftmost and rightmost child as found by the
+// library's minimum / maximum descents.
+func (h *VerifHandle) MinMax() (int, int) {
+	lo := (*alphaLeafNode[int])(minimum[int](h.ref))
+	hi := (*alphaLeafNode[int])(maximum[int](h.ref))
+	if lo == nil || hi == nil {
+		return -1, -1
+	}
+	return lo.value, hi.value
+}
+
+// Raw exposes the node as it is laid out (see VerifNode).
+func (h *VerifHandle) Raw() *VerifNode {
+	return verifWalk[int, *alphaLeafNode[int]](h.ref, func(p unsafe.Pointer) any { return (*alphaLeafNode[int])(p).value })
+}
+
+// ---- pool audit (diagnostic only) -------------------------------------------
+
+// VerifPoolAudit drains the four node pools, counts the nodes found and how
+// many of them are not all-zero, and puts them back. Single goroutine only.
+func VerifPoolAudit() (seen, dirty [4]int) {
+	for k := nodeKind4; k < nodeKindLeaf; k++ {
+		newFn := nodePools[k].New
+		nodePools[k].New = nil
+
+		var got []any
+		for i := 0; i < 1<<16; i++ {
+			x := nodePools[k].Get()
+			if x == nil {
+				break
+			}
+			got = append(got, x)
+		}
+		nodePools[k].New = newFn
+
+		for _, x := range got {
+			seen[k]++
+			var raw []byte
+			switch n := x.(type) {
+			case *node4:
+				raw = unsafe.Slice((*byte)(unsafe.Pointer(n)), unsafe.Sizeof(*n))
+			case *node16:
+				raw = unsafe.Slice((*byte)(unsafe.Pointer(n)), unsafe.Sizeof(*n))
+			case *node48:
+				raw = unsafe.Slice((*byte)(unsafe.Pointer(n)), unsafe.Sizeof(*n))
+			case *node256:
+				raw = unsafe.Slice((*byte)(unsafe.Pointer(n)), unsafe.Sizeof(*n))
+			}
+			for _, c := range raw {
+				if c != 0 {
+					dirty[k]++
+					break
+				}
+			}
+			nodePools[k].Put(x)
+		}
+	}
+	return
+}
